@@ -154,3 +154,6 @@ def run(ctx):
         kinds = sorted(set(owners[i][0] for i in failing))
         ctx.broke("correspondence", "SolverKernels.v vs drv_solve records (%s)" % ",".join(kinds),
                   json.dumps({"first_disagreeing_case": terms[failing[0]], "kind": kind, "request": rq.describe(), "n_disagreements": len(failing)}))
+    # whole-loop tie for PANOC: verified model (Panoc.v) vs the real solver on whole runs
+    from vf.props import PANOC
+    PANOC.attach(ctx)
